@@ -7,6 +7,7 @@ pub mod c16;
 pub mod c17;
 pub mod c18;
 pub mod c19;
+pub mod meta;
 pub mod cong;
 pub mod script;
 
@@ -16,6 +17,7 @@ pub fn dispatch(args: &Args, rep: &mut Rep) -> bool {
         "C09" => c09::run(args, rep),
         "C10" => c10::run(args, rep),
         "C10red" => cong::run(args, rep, cong::Focus::Both),
+        "C11" | "C12" | "C13" => meta::run(args, rep),
         "C16" => c16::run(args, rep),
         "C17" => c17::run(args, rep),
         "C18" => c18::run(args, rep),
